@@ -106,7 +106,7 @@ View == <<s, blk, ghost>>
 (* state invariants: the clauses of the statement that hold in every state  *)
 \* (PendingGapFree: AS IMPLEMENTED a reorganisation can leave a hole, so it is checked as "no operation other
 \* than "ro" opens a hole" in StepInv, and as a state invariant of the repaired model in StrictInv)
-Inv == /\ (("ro" \notin Acts \/ FixGapAfterReorg) => PendingGapFree(s) /\ NonceTracksPending(s))
+Inv == /\ (("ro" \notin Acts \/ FixGapAfterReorg) => PendingGapFree(s) /\ NonceTracksPending(s) /\ NonceIsNextPending(s))
        /\ EachAffordable(s) /\ FitsBlockGas(s)
        /\ PendingQueueDisjoint(s) /\ IndexedExactlyOnce(s) /\ MinedGone(s)
        /\ QueuedValid(s) /\ LocalFlagged(s)
